@@ -164,17 +164,20 @@ def run(chk):
     except vlib.MachineryError as ex:
         vlib.log("[warn] -race build not available, free runs without the race detector: %s" % str(ex)[:200])
     stats = {"lines": 0, "runs": 0, "rejected_runs": 0}
-    cover = {"mc": set(), "replayed": set(), "actions": {}}
+    cover = {"mc": set(), "replayed": set(), "actions": {}, "mc_actions": {}}
     tasks = []
 
     # ---- (G) model checking of Router
     mcs = ["RouterMC_quickA.cfg", "RouterMC_quickB.cfg", "RouterMC_quickC.cfg", "RouterMC_quickO.cfg"]
     if not quick:
-        mcs += ["RouterMC_thorough.cfg"]
+        mcs += ["RouterMC_thorough.cfg", "RouterMC_thorough3.cfg"]
     def mc(cfg):
         def fn():
             r = tlc("RouterMC", cfg, workers=4 if not quick else 3, timeout=3000, heap="10g")
-            cover["mc"] |= cov_pairs(r.out) if cfg != "RouterMC_quickO.cfg" else set()
+            pairs = cov_pairs(r.out)
+            if cfg in ("RouterMC_quickA.cfg", "RouterMC_quickB.cfg", "RouterMC_quickC.cfg"):
+                cover["mc"] |= pairs
+            cover["mc_actions"][cfg] = sorted({p[0] for p in pairs})
             return r
         return fn
     tasks += [("mc:" + c, mc(c)) for c in mcs]
@@ -250,12 +253,23 @@ def run(chk):
     tasks += [("free:%d" % p, free(p, nfree // nparts)) for p in range(nparts)]
     if not quick:
         def overflow():
+            # the real bound (10 000 messages) is too large for RouterTrace's state: counting abstraction OverflowTrace
             rd = vlib.scratch(chk.prop, "overflow")
             tpath = os.path.join(rd, "trace.ndjson")
             vlib.run_driver(binary, ["-mode", "overflow", "-seed", str(seed), "-out", tpath])
-            runs = assemble(tpath)
-            cover["actions"]["DepOverflow"] = sum(1 for e in runs[0] if e["a"] == "dep" and e["fatal"] == "overflow")
-            return validate_runs(chk, "otrace", runs, "overflow", stats)
+            rows = vlib.read_ndjson(tpath)
+            res = vlib.tlc(SPEC, "OverflowTrace", "OverflowTrace.cfg", workers=1, timeout=1500, rundir=rd)
+            if res.error:
+                raise vlib.MachineryError("OverflowTrace: %s" % res.error)
+            cover["actions"]["DepOverflow"] = sum(1 for e in rows if e["a"] == "dep" and e.get("fatal") == "overflow")
+            if res.violation:
+                row = rows[res.distinct - 1] if res.distinct - 1 < len(rows) else {}
+                chk.violation("router:overflow:%s" % row.get("a"), "OverflowTrace (%s) stops at line %d of the overflow run: %s" % (
+                    res.violation, res.distinct, json.dumps(row)[:400]), {"mode": "overflow", "line": row})
+            chk.cov["parts"]["overflow"] = {"lines": len(rows), "accepted": not res.violation, "wall_s": round(res.wall, 1)}
+            stats["lines"] += len(rows)
+            stats["runs"] += 1
+            return len(rows)
         tasks.append(("overflow", overflow))
 
     # ---- Echo: (G) exhaustive MC that also prints every Byzantine behaviour, (R) real participants, (V) EchoTrace
@@ -384,6 +398,10 @@ def run(chk):
     chk.cov["replay"]["action_sourcepc_pairs"] = {"model": len(own_pc), "replayed": len(own_pc & own_pc_rep)}
     chk.cov["replay"]["action_pcvector_pairs"] = {"model": len(cover["mc"]), "replayed": len(cover["mc"] & cover["replayed"]),
                                                   "fraction": round(len(cover["mc"] & cover["replayed"]) / max(1, len(cover["mc"])), 3)}
+    chk.cov["mc_actions_taken"] = cover["mc_actions"]
+    never = sorted(set(ACTIONS + ["DepOverflow"]) - {a for v in cover["mc_actions"].values() for a in v})
+    if never:
+        raise vlib.MachineryError("vacuous model checking: no configuration takes the actions %s" % never)
     chk.cov["free"] = {"runs": free_stats["runs"], "race_detector": bool(race)}
     chk.cov["echo"] = dict(echo_stats)
     chk.cov["runner"] = dict(runner_stats)
